@@ -63,7 +63,14 @@ fn nfc_mul_pow2_assign(power: i64, x: &mut [i128]) {
     if power > 0 {
         x.iter_mut().for_each(|xi| *xi <<= power as u32);
     } else if power < 0 {
-        x.iter_mut().for_each(|xi| *xi >>= (-power) as u32);
+        // Rounds to nearest, exactly as `znx_mul_power_of_two_assign_ref` does for the i64 path,
+        // so that both big-accumulator families produce the same limbs.
+        let k: u32 = (-power) as u32;
+        x.iter_mut().for_each(|xi| {
+            let sign_bit: i128 = (*xi >> 127) & 1;
+            let bias: i128 = (1_i128 << (k - 1)) - sign_bit;
+            *xi = xi.wrapping_add(bias) >> k;
+        });
     }
 }
 
